@@ -15,7 +15,8 @@ pub fn check_case(case: &CodecCase) -> CaseResult {
         return Err(Fail::new("encode:prefix-lost", "bytes already in the iovec handed to new_from_iovec are not at the front of the output"));
     }
     let stream = &enc.output[pre.len()..];
-    let dec = codec::run_decoder(stream, &case.dec, false)?;
+    // The same prefix on the decoder's side: decoded bytes come after what its iovec already holds.
+    let dec = codec::run_decoder_pre(stream, pre, &case.dec, false)?;
     match &dec.result {
         Ok(back) if *back == plain => {}
         Ok(back) => return Err(Fail::new("roundtrip:mismatch", codec::mismatch("decoded output differs from the original", back, &plain))),
@@ -63,7 +64,7 @@ fn replay(_ctx: &Ctx, group: &str, case: &Value) -> CaseResult {
 pub fn def() -> PropDef {
     PropDef {
         id: "C01",
-        rule: "A case is (payload description, encoder feeding plan, decoder feeding plan): the payload is a concatenation of segments with lengths biased to 0..8, 244..260, 63990..64030, 64254..64266 and bytes from FE/FD/00/FC-heavy alphabets, joined by FE FD-like tokens; each plan cuts its input into up to 12 pieces (cuts placed by fraction, near stuff sequences / chunk limits / chunk headers, or at absolute boundary positions), assigns an input method to each piece (borrow, copy, read_n+anchored, encode_read/decode_read with a scripted short-read/EINTR reader) and a consumer drain action after each call (consume slices, advance bytes, Read, everything, nothing). The power-of-two-aligned group places FE FD (or FE, FE FE FD, FE FD FE FD) after gaps of k*2^p-1+d bytes (p = 6..16, k = 1..4, d = -2..1) counted from the start of the input, from the end of the 252-byte first chunk or from the previous stuff sequence, and feeds half of the cases in one call, so that a stuff sequence straddles any power-of-two scan block of one call's slice. Oracle: the decoder accepts the encoder's output and returns the payload. Non-trivial: payload has >= 252 bytes or contains FE FD, and at least one side was fed in >= 2 calls. Distinct: hash of the serialised case. The small-scope group enumerates every string over {FE,FD,00} up to max_len with four tiny limit pairs, every 2-way cut and copy/borrow choice on both sides, through the hcobs::verif hook.",
+        rule: "A case is (payload description, encoder feeding plan, decoder feeding plan): the payload is a concatenation of segments with lengths biased to 0..8, 244..260, 63990..64030, 64254..64266 and bytes from FE/FD/00/FC-heavy alphabets, joined by FE FD-like tokens; each plan cuts its input into up to 12 pieces (cuts placed by fraction, near stuff sequences / chunk limits / chunk headers, or at absolute boundary positions), assigns an input method to each piece (borrow, copy, read_n+anchored, encode_read/decode_read with a scripted short-read/EINTR reader) and a consumer drain action after each call (consume slices, advance bytes, Read, everything, nothing). The power-of-two-aligned group places FE FD (or FE, FE FE FD, FE FD FE FD) after gaps of k*2^p-1+d bytes (p = 6..16, k = 1..4, d = -2..1) counted from the start of the input, from the end of the 252-byte first chunk or from the previous stuff sequence, and feeds half of the cases in one call, so that a stuff sequence straddles any power-of-two scan block of one call's slice. One case in ten starts both codecs from an iovec that already holds a few bytes (new_from_iovec). Oracle: the decoder accepts the encoder's output and returns the payload. Non-trivial: payload has >= 252 bytes or contains FE FD, and at least one side was fed in >= 2 calls. Distinct: hash of the serialised case. The small-scope group enumerates every string over {FE,FD,00} up to max_len with four tiny limit pairs, every 2-way cut and copy/borrow choice on both sides, through the hcobs::verif hook.",
         assumptions: &[
             "scripted readers never return more than asked, never report end of file before the data ends, and never fail with a non-Interrupted error (C17 covers those)",
             "decoders are not fed after their first error",
